@@ -24,7 +24,7 @@ func c06Unit(c *RunCtx, unit int) {
 		mods = append(mods, "lock") // its login hooks save the user of a recover-and-login a second time
 	}
 	cfg := world.Cfg{Modules: shuffled(r, mods), Mount: pickS(r, "/auth", "/a/b"), JSON: r.Intn(3) == 0, RecoverLogin: r.Intn(2) == 0,
-		Err500: r.Intn(2) == 0, LogoutMethod: "DELETE", Secondary: r.Intn(4) == 0}
+		Err500: r.Intn(2) == 0, LogoutMethod: "DELETE", Secondary: r.Intn(4) == 0, FoldPIDs: r.Intn(3) == 0}
 	s, err := sim.New(cfg, r, sim.SeedOpt{Accounts: 3, Browsers: 5})
 	if err != nil {
 		c.Stats.Inconclusive = append(c.Stats.Inconclusive, "world: "+err.Error())
@@ -63,8 +63,12 @@ func c06Unit(c *RunCtx, unit int) {
 			k = r.Intn(4)
 			for b := 0; b < k; b++ {
 				step(act("dropsid", b, -9, ""))
-				st := step(act("login", b, target, "ok", "rm", "true"))
-				if st.UIDOut != U.PID {
+				la := act("login", b, target, "ok", "rm", "true")
+				if cfg.FoldPIDs && r.Intn(2) == 0 {
+					la.Opt["spell"] = "flipcase" // typed in another spelling; the user table finds the account all the same
+				}
+				st := step(la)
+				if !strings.EqualFold(st.UIDOut, U.PID) {
 					fail("setup-login-failed", "setup: correct password of %q did not log in", U.PID)
 					return
 				}
